@@ -60,6 +60,9 @@ class C15(Prop):
         else:
             period_arg = period
         n = (6 + s.geometric(34, 12, "ncalls")) if deep else (1 + s.geometric(11, 5, "ncalls"))
+        # one decorator object may decorate two functions: each has its own window
+        two_functions = s.chance(1, 4, "two-functions")
+        odd_kwargs = {"limit": 9, "period": 3} if s.chance(1, 3, "odd-kwargs") else {}
         gaps = (0, 0, 1, p_steps - 1, p_steps, p_steps + 1, p_steps // 2, 2 * p_steps)
         durs = (0, 0, p_steps // 2, p_steps, 2 * p_steps)
         t = (0, 5, p_steps)[s.draw(3, "t0")]
@@ -68,7 +71,7 @@ class C15(Prop):
             if i:
                 t += gaps[s.draw(len(gaps), "gap")]
             calls.append({"at": t, "dur": durs[s.draw(len(durs), "dur")], "exc": s.chance(1, 4, "exc"),
-                          "cancel": None})
+                          "cancel": None, "fn": s.draw(2, "which-fn") if two_functions else 0})
         if profile == "cancel":
             for _ in range(1 + s.draw(2, "ncancel")):
                 j = s.draw(n, "victim")
@@ -87,9 +90,9 @@ class C15(Prop):
         must_start_at = {}
         tasks = {}
 
-        async def fn(i, *, tag):
-            if tag != ("t", i):
-                sim.fail("arguments", f"function got tag {tag!r} for call {i}")
+        async def fn(i, *, tag, **extra):
+            if tag != ("t", i) or extra != odd_kwargs:
+                sim.fail("arguments", f"function got tag {tag!r}, extra keywords {extra!r} for call {i}")
             starts.append((i, sim.now))
             started.add(i)
             sim.event("start", i)
@@ -99,21 +102,27 @@ class C15(Prop):
                 raise excs[i]
             return results[i]
 
-        throttled = throttle(limit=limit, period=period_arg)(fn)
+        decorator = throttle(limit=limit, period=period_arg)
+
+        async def fn_b(i, *, tag, **extra):
+            return await fn(i, tag=tag, **extra)
+
+        throttled_by_fn = [decorator(fn), decorator(fn_b)]
 
         async def call(i):
             a = sim.now
             arrivals.append((i, a))
             sim.event("arrive", i)
-            recent = sum(1 for (_j, ts) in starts if ts > a - period + EPS)
-            waiting = any((j not in started) and (j not in cancelled_ok) for (j, _ta) in arrivals[:-1])
+            mine = calls[i]["fn"]
+            recent = sum(1 for (j, ts) in starts if ts > a - period + EPS and calls[j]["fn"] == mine)
+            waiting = any((j not in started) and (j not in cancelled_ok) and calls[j]["fn"] == mine for (j, _ta) in arrivals[:-1])
             if recent < limit and not waiting:
                 must_start_at[i] = a
             else:
                 sim.nontrivial = True
                 sim.stats["had_to_wait"] += 1
             try:
-                r = await throttled(i, tag=("t", i))
+                r = await throttled_by_fn[calls[i]["fn"]](i, tag=("t", i), **odd_kwargs)
             except asyncio.CancelledError:
                 outcome_of[i] = ("cancelled", None)
                 raise
@@ -173,6 +182,16 @@ class C15(Prop):
             sim.harness_error(f"main failed: {sim.main.exception()!r}")
             return
 
+        all_starts, all_arrivals = starts, arrivals
+        for which in ((0, 1) if two_functions else (0,)):
+            starts = [(i, ts) for (i, ts) in all_starts if calls[i]["fn"] == which]
+            arrivals = [(i, ta) for (i, ta) in all_arrivals if calls[i]["fn"] == which]
+            if self.judge_function(sim, profile, limit, period, starts, arrivals, started, cancelled_ok, must_start_at, two_functions):
+                return
+        starts, arrivals = all_starts, all_arrivals
+        self.judge_outcomes(sim, n, calls, outcome_of, cancelled_ok, results, excs)
+
+    def judge_function(self, sim, profile, limit, period, starts, arrivals, started, cancelled_ok, must_start_at, two_functions):
         # 1. sliding window
         times = [ts for (_i, ts) in starts]
         for k in range(len(times) - limit):
@@ -181,28 +200,32 @@ class C15(Prop):
                     "window", f"{limit + 1} starts within less than one period: calls "
                     f"{[i for i, _ in starts[k:k + limit + 1]]} started at {times[k:k + limit + 1]} "
                     f"(limit={limit}, period={period})")
-                return
+                return True
         # 2. FIFO
         order = [i for (i, _a) in arrivals if i in started]
         got = [i for (i, _s) in starts]
         if profile != "cancel" or not cancelled_ok:
             if got != order:
                 sim.fail_post("order", f"calls started in order {got} but arrived in order {order}")
-                return
+                return True
         else:
             # with cancellations: the surviving calls must still start in arrival order
             surv = [i for i in order if i not in cancelled_ok]
             if [i for i in got if i not in cancelled_ok] != surv:
                 sim.fail_post("order", f"surviving calls started in order {got} but arrived {order}")
-                return
+                return True
         # 3. no needless delay (fault-free profiles only)
         if profile != "cancel":
             st = dict(starts)
             for i, a in must_start_at.items():
                 if i in st and st[i] > a + EPS:
                     sim.fail_post("needless-delay", f"call {i} arrived at {a} with the window open and nobody waiting "
-                                  f"but started at {st[i]}")
-                    return
+                                  f"but started at {st[i]}" + (" (two functions share one decorator object)" if two_functions else ""),
+                                  **({"shared_decorator": 1} if two_functions else {}))
+                    return True
+        return False
+
+    def judge_outcomes(self, sim, n, calls, outcome_of, cancelled_ok, results, excs):
         # 4. liveness + transparency
         for i in range(n):
             kind, obj = outcome_of.get(i, (None, None))
